@@ -182,14 +182,14 @@ def run(F, ck, tier):
         pins = set()
         for e in fl.events:
             if e.kind == 'guard':
-                pins |= e.pins
+                pins |= e.eq_pins
         req = []
         required_pins(F, ty, 'p:' + root, req)
         total_req += len(req)
         for alts, what in req:
             ok = any(a in pins for a in alts)
             key = 'pin:%s:%s' % (label, alts[0][2:])
-            ck.ob('R18.2', key, ok, ('%s of %s is never compared with anything by an Err-returning guard on the way from %s: a proof with a wrong %s reaches indexing / zips unchecked' % (what, alts[0][2:], fn.qual, what))
+            ck.ob('R18.2', key, ok, ('%s of %s is never compared for EQUALITY with anything by an Err-returning guard on the way from %s: a proof with a wrong %s reaches indexing / zips unchecked' % (what, alts[0][2:], fn.qual, what))
                   if not ok else '%s pinned' % what, '%s:%d' % (fn.file, fn.line))
     ck.floor('R18.2', 'length-bearing positions in the proof type family', total_req, 30)
 
